@@ -374,3 +374,40 @@ PROPS["C02"] = Prop(rule=_formula_rule % ", Hessian by name pair, gradient2 read
                     finding_key=_key_c02,
                     trusted=_dual_trusted + ["statrs erfc/erfc_inv ported to Lean Float for the driver"],
                     assumptions=_dual_assume)
+
+
+# ---------------------------------------------------------------------------------------------
+# curves
+
+def _cls_curve(t, impl):
+    op = t[0]
+    if op == "idxleft":
+        return "idxleft:len=%s" % t[1], True
+    if op == "cvvalue":
+        return "cvvalue:" + _kind_of(impl), True
+    if op in ("cvindex", "cvidxval", "cvnodes", "cvad", "cvorder"):
+        k = impl.split(" ", 1)[0]
+        return "%s:%s" % (op, k if op != "cvindex" else "idx"), op != "cvad"
+    return None, False
+
+
+_curve_trusted = [
+    "hand-written model of rust/curves (lean/RateslibModel/Model/Curve.lean) tied to the code by the correspondence run "
+    "through the verif_hooks wrappers of the Python-facing Curve",
+    "indexmap ordering / sort_keys modelled as a stable insertion sort on distinct keys",
+]
+
+PROPS["C11"] = Prop(
+    rule="index_left EXHAUSTIVELY on all strictly increasing lists of length 2..6 (quick) / 2..9 (thorough) over a 9 / 12 "
+         "point grid with all grid and half-grid query points; 500 (quick) random curves per run over the 5 rules, 2-40 "
+         "nodes, spacing 1 day..30 years, random supply order, queried at every node date and both neighbours, before, "
+         "after and inside; node read-back. values bit-exact (the model mirrors the operation order). non-trivial = all",
+    classify=_cls_curve, mode="close", exhaustive=lambda tier: False, trusted=_curve_trusted + _dual_trusted[:1],
+    assumptions=_dual_assume)
+
+PROPS["C12"] = Prop(
+    rule="random curves (5 rules x AD order 0/1/2 x with/without index base, some nodes supplied as dual numbers with "
+         "their own variables) x random order-switch sequences of length 0..8; after every switch: order, node read-back "
+         "(values, tags, sensitivities), look-ups and index values with gradients and Hessians by name",
+    classify=_cls_curve, mode="close", exhaustive=lambda tier: False, trusted=_curve_trusted + _dual_trusted[:1],
+    assumptions=_dual_assume)
